@@ -33,7 +33,7 @@ import (
 
 var log = logging.MustGetLogger("listeners/agent")
 
-//  Register the listener
+// Register the listener
 var (
 	_ = listener.Register("agent", New)
 )
@@ -182,8 +182,10 @@ func (al *agentListener) serv(c *conn2) {
 			ac := &agentConnection{
 				Laddr: v.Laddr,
 				Raddr: v.Raddr,
-				in:    make(chan []byte),
-				out:   out,
+				// one pending wake-up is remembered, so that a reader that has
+				// just found the buffer empty does not miss the notification
+				in:  make(chan []byte, 1),
+				out: out,
 			}
 
 			conns.Add(ac)
